@@ -494,6 +494,27 @@ impl Source {
 			})
 		})
 	}
+	/// opens the stream over `bbox`, takes at most `take` tiles and drops it unfinished (a
+	/// consumer that stops reading early); returns how many tiles it got
+	pub fn stream_abandon(&self, bbox: TileBBox, take: usize) -> Result<usize, crate::engine::PanicInfo> {
+		guard(|| {
+			util::block_on(async {
+				let mut s = match self {
+					Source::Reader(r) => r.get_bbox_tile_stream(bbox).await,
+					Source::Op(o) => o.get_tile_stream(bbox).await,
+				};
+				let mut n = 0;
+				while n < take {
+					if s.next().await.is_none() {
+						break;
+					}
+					n += 1;
+				}
+				drop(s);
+				n
+			})
+		})
+	}
 	/// `stream` with recognition of a stream that can never finish (inner `Err`), see
 	/// `util::block_on_detecting_deadlock`
 	#[allow(clippy::type_complexity)]
